@@ -27,7 +27,7 @@ CLAIMS = {
         "None/8/30 MHz, mixed per-channel bandwidths): every accepted add / "
         "align / delay is compared with RefSched's earliest admissible start; min-delay / wait-for-all lower bounds, the "
         "phase-shift barrier, exactness of no-delay, estimate_added_delay == inserted delay (and purity) and align's common end "
-        "are checked model-free on every transition. One world has clocks 1 vs 4 on one basis. min-delay / wait-for-all starts and at-rest alignments are also compared with a fall-time lower bound computed from the scheduled samples alone (documented Gaussian filter), with pulses whose amplitude ends smoothly while the detuning starts flat and ends high; one world has a minimum duration off the clock grid. The reference comparison includes where the phase-shift barrier sits (each atom's last-used time and shift times, also after DMM pulses and phase shifts).",
+        "are checked model-free on every transition. One world has clocks 1 vs 4 on one basis. min-delay / wait-for-all starts and at-rest alignments are also compared with a fall-time lower bound computed from the scheduled samples alone (documented Gaussian filter), with pulses whose amplitude ends smoothly while the detuning starts flat and ends high; one world has a minimum duration off the clock grid. The reference comparison includes where the phase-shift barrier sits (each atom's last-used time and shift times, also after DMM pulses and phase shifts). Two worlds give 8 MHz channels a phase-jump time of zero (below their 120 ns fall time), one from a root ending with an idle slot shorter than the fall time.",
         "Fall times of scheduled pulses are trusted inputs (C14). Detuned EOM idle slots on other channels may or may not count "
         "as pulses (both accepted). Bounded depth/alphabet.",
         "DESIGN.md §3 C03, Appendix A",
@@ -35,7 +35,7 @@ CLAIMS = {
     "C07": (
         'model_checking',
         'explicit-state BFS over call histories with an independent phase accumulator + RefSched phase-reference equality; exhaustive Ramsey grid on the emulator',
-        "All histories up to depth 3-5 over 14-21 op alphabets (shifts of 1, -0.5, 7 > 2pi, 2pi, 0 on atom subsets and bases, pulses with post-phase-shifts of either sign on global/local channels, retargets, EOM pulses) on 6 worlds (two channels on one basis, two bases, DMM configured before the first channel, two globals, and the mirror image with the local channel starting on the other atom, 3 atoms and integer qubit ids out of register order; EOM calls incl. a drift-corrected change of setpoint): per transition every (basis, atom) reference must change by exactly the op's increment (mod 2pi) and no other reference may move; every new pulse carries programmed phase + reference and starts after the latest shift of its targets. Ramsey pairs (two pi/2 pulses around a shift phi) are emulated for 29 phi values x 5 channel kinds x {phase_shift, post_phase_shift}, and for 10 phi values x 3 channel kinds with something in between (plain delay, zero-amplitude hold of 16 / 100 / 400 ns) x both protocols of the second pulse x phase-jump time {none, 200 ns} (1250 emulations): P = cos^2(phi/2) +- 1e-4. ArbitraryPhase pulses (constant and ramp phase) are in the alphabet; the accumulator takes the post-phase-shift from the op as written, not from the built Pulse. A world in which the second channel of a basis is declared mid-sequence, after phase shifts were accumulated on that basis. Every sequence of 2-3 builds of one template (concrete and mappable register, shifts before and after the first variable): references and pulse phases of each built sequence are the sum of its own shifts; earlier builds and the template stay put.",
+        "All histories up to depth 3-5 over 14-21 op alphabets (shifts of 1, -0.5, 7 > 2pi, 2pi, 0 on atom subsets and bases, pulses with post-phase-shifts of either sign on global/local channels, retargets, EOM pulses) on 6 worlds (two channels on one basis, two bases, DMM configured before the first channel, two globals, and the mirror image with the local channel starting on the other atom, 3 atoms and integer qubit ids out of register order; EOM calls incl. a drift-corrected change of setpoint): per transition every (basis, atom) reference must change by exactly the op's increment (mod 2pi) and no other reference may move; every new pulse carries programmed phase + reference and starts after the latest shift of its targets. Ramsey pairs (two pi/2 pulses around a shift phi) are emulated for 29 phi values x 5 channel kinds x {phase_shift, post_phase_shift}, and for 10 phi values x 3 channel kinds with something in between (plain delay, zero-amplitude hold of 16 / 100 / 400 ns) x both protocols of the second pulse x phase-jump time {none, 200 ns} (1250 emulations): P = cos^2(phi/2) +- 1e-4. ArbitraryPhase pulses (constant and ramp phase) are in the alphabet; the accumulator takes the post-phase-shift from the op as written, not from the built Pulse. A world in which the second channel of a basis is declared mid-sequence, after phase shifts were accumulated on that basis. Every sequence of 2-3 builds of one template (concrete and mappable register, shifts before and after the first variable): references and pulse phases of each built sequence are the sum of its own shifts; earlier builds and the template stay put. The EOM alphabet includes drift-corrected enabling at a strong setpoint (no reference moves on a channel that has played nothing).",
         "EOM drift corrections are compared with the documented rule (RefSched); their physical correctness is C15's clause. Bounded depth/alphabet; phi grid.",
         'DESIGN.md §3 C07',
     ),
@@ -201,7 +201,7 @@ CLAIMS = {
     "C20": (
         'exploration',
         'exhaustive grids of states x Hamiltonians / operator representations x observables against numpy trace definitions; end-to-end V2 runs over evaluation-time configurations; BitStrings under enumerated RNG tapes',
-        '22.9k cases (quick): a 9-member state family (basis states, uniform, signed/complex, entangled, 1/4-3/4 mixture, maximally mixed, diagonal) as ket and density matrix x 6 eigenstate sets (2, 3, 4 levels) x 1-3 qudits x 3 Hamiltonians: Occupation, CorrelationMatrix, Energy, EnergySecondMoment, EnergyVariance, Fidelity / overlap against every member given as ket and as density matrix (incl. a mixture with complex off-diagonal elements), Expectation of a non-Hermitian operator, operator +, scalar*, @ and apply_to == matrix algebra; 6 operator-representation shapes and 4 amplitude sets per (levels, qudits) == explicit Kronecker products, probabilities and basis-state indexing; end-to-end runs over per-observable time lists (unsorted, near-duplicate) x default times x noise: ascending unique times, retrieval by observable and tag, stored values == definitions on the stored state and noiseless Hamiltonian; BitStrings under every tape of a 6-value menu per draw x detection-error settings; every sequence duration 16..329 ns (thorough ..1499) x 6 evaluation-time lists not starting at 0: exactly one stored value per requested time; the Results store itself: every subset (<= 4) of a 9-point time grid with neighbours closer than 1e-5 relative, every value retrievable by exactly its own time, by observable and by tag. Operator representations in which several single-qudit operators share projector keys but not coefficients (X / Y / Z / identity written out) vs an explicit Kronecker construction. End-to-end runs repeated with output modulation (emulated duration longer than the programmed one): stored energies equal Tr[rho(t) H(t)^k] with H at the emulated time. Tag clashes between observables of different classes (tag suffixes that make two tags coincide).',
+        '22.9k cases (quick): a 9-member state family (basis states, uniform, signed/complex, entangled, 1/4-3/4 mixture, maximally mixed, diagonal) as ket and density matrix x 6 eigenstate sets (2, 3, 4 levels) x 1-3 qudits x 3 Hamiltonians: Occupation, CorrelationMatrix, Energy, EnergySecondMoment, EnergyVariance, Fidelity / overlap against every member given as ket and as density matrix (incl. a mixture with complex off-diagonal elements), Expectation of a non-Hermitian operator, operator +, scalar*, @ and apply_to == matrix algebra; 6 operator-representation shapes and 4 amplitude sets per (levels, qudits) == explicit Kronecker products, probabilities and basis-state indexing; end-to-end runs over per-observable time lists (unsorted, near-duplicate) x default times x noise: ascending unique times, retrieval by observable and tag, stored values == definitions on the stored state and noiseless Hamiltonian; BitStrings under every tape of a 6-value menu per draw x detection-error settings; every sequence duration 16..329 ns (thorough ..1499) x 6 evaluation-time lists not starting at 0: exactly one stored value per requested time; the Results store itself: every subset (<= 4) of a 9-point time grid with neighbours closer than 1e-5 relative, every value retrievable by exactly its own time, by observable and by tag. Operator representations in which several single-qudit operators share projector keys but not coefficients (X / Y / Z / identity written out) vs an explicit Kronecker construction. End-to-end runs repeated with output modulation (emulated duration longer than the programmed one): stored energies equal Tr[rho(t) H(t)^k] with H at the emulated time. Tag clashes between observables of different classes (tag suffixes that make two tags coincide). Histories of evaluations: every ordered pair of eigenstate tuples of one dimension sharing a label x that label as one_state x 1-2 qudits, Occupation and CorrelationMatrix on the first then on the second, each history in a freshly forked process.',
         'Known finding: observables with own evaluation times are also stored at the default times.',
         'DESIGN.md §3 C20',
     ),
